@@ -74,6 +74,7 @@ type worldSpec struct {
 	Crash         bool // a crash may be injected at any point (one per execution)
 	FaultInsert   bool // InsertLogs may fail (one deviation each)
 	StoreGoesDown bool // from one InsertLogs on (one deviation) every InsertLogs fails
+	GracefulClose bool // Commander.Close() is called at any moment
 	FaultReads    bool // store reads may fail
 }
 
@@ -291,6 +292,13 @@ func runWorld(spec *worldSpec, r *explore.Replayer) *worldRun {
 				})
 			}
 			s.Spawn(reqs[i].Name, false, func() { runRequest(w, cmd, rctx, res) })
+		}
+		if spec.GracefulClose && gen == 1 {
+			// the engine is closed (graceful shutdown) at any moment while requests are in flight
+			s.Spawn("closer", false, func() {
+				verifrt.PointOn("close engine", "real")
+				cmd.Close()
+			})
 		}
 		defer func() {
 			for _, c := range cancels {
